@@ -1444,6 +1444,24 @@ fn gen_modulus(r: &mut Xoshiro, limbs: usize) -> Vec<u64> {
 fn gen_val(r: &mut Xoshiro, m: &BigUint, limbs: usize) -> Vec<u64> {
     let rr = BigUint::one() << (64 * limbs);
     let one = BigUint::one();
+    // zero divisors and nilpotents of composite moduli (m/p, small multiples, the small factors themselves):
+    // the only operands whose product is a non-zero multiple of m, i.e. reduces to exactly m before the
+    // final conditional subtraction
+    let has3 = (m % 3u32).is_zero();
+    if r.chance(1, if has3 { 3 } else { 8 }) {
+        let p = if has3 && r.chance(1, 2) { 3 } else { *r.pick(&[3u32, 5, 7, 9, 15, 17, 27]) };
+        let v = match r.below(4) {
+            0 => m / p,
+            1 => (m / p) * r.range(1, p as u64 - 1),
+            2 => BigUint::from(p),
+            _ => {
+                // a multiple of the largest of these factors that actually divides m
+                let f = [27u32, 17, 15, 9, 7, 5, 3].iter().copied().find(|f| (m % *f).is_zero()).unwrap_or(1);
+                (m / f) * r.range(1, f.max(2) as u64 - 1)
+            }
+        };
+        return to_words_n(&(v % &rr), limbs);
+    }
     let v: BigUint = match r.below(12) {
         0 => BigUint::zero(),
         1 => one.clone(),
